@@ -85,3 +85,59 @@ for _f, _post in SPEC.items():
                 note=f"number x number overload, representation kinds ({_ka}, {_kb})",
                 props=["C07"],
             )
+
+
+# ---------------------------------------------------------------- helpers.vyxalify: how results are normalised (wrapper obligations)
+# vyxalify is trusted elsewhere as "the identity on Vyxal values"; here its two numeric branches are tied to the
+# library call that makes them exact: nsimplify(..., rational=True).  Without rational=True sympy looks for a closed
+# form within 1e-15 and an exact quotient comes back as an irrational product.
+class _IsSympy(UFn):
+    def __init__(self, answer):
+        self.name, self.answer = "is_sympy", answer
+
+    def apply(self, ex, args, kwargs):
+        return self.answer
+
+
+def _vyx_setup(kind):
+    def setup(ex, fr):
+        from pyvc.world import OpaqueValue
+
+        fr.env["is_sympy"] = _IsSympy(kind == "sympy")
+        ex.w.val_never_none = True
+
+    return setup
+
+
+class _IsInstanceOf(UFn):
+    """isinstance(value, cls) decided by the case under verification"""
+
+    def __init__(self, yes):
+        self.name, self.yes = "isinstance", yes
+
+    def apply(self, ex, args, kwargs):
+        v, cls = args
+        names = {getattr(c, "__name__", getattr(c, "name", str(c))) for c in (cls if isinstance(cls, tuple) else (cls,))}
+        return bool(names & self.yes)
+
+
+for _case, _yes, _expr in (
+    ("sympy-value", set(), "sympy.nsimplify(value, rational=True)"),
+    ("float", {"float", "complex"}, "sympy.nsimplify(value, rational=True)"),
+):
+    def _mk(case=_case, yes=_yes):
+        def setup(ex, fr):
+            fr.env["is_sympy"] = _IsSympy(case == "sympy-value")
+            fr.env["isinstance"] = _IsInstanceOf(yes)
+            ex.w.val_never_none = True
+
+        return setup
+
+    W.contract(
+        f"vyxal/helpers.py::vyxalify#{_case}",
+        params=dict(value=VAL), result=VAL, setup=_mk(),
+        ensures=[f"result == ({_expr})"], ensures_names=["normalised-with-rational-True"],
+        executor="template", frame_check=False, may_raise=True, fuel=0,
+        note="the numeric branches of vyxalify hand the value to sympy.nsimplify with rational=True (the library call is uninterpreted: what matters is that this call, with this flag, is the one made)",
+        props=["C07", "C05"],
+    )
